@@ -221,7 +221,7 @@ pub fn deep_chain_ty(rng: &mut Rng, depth: usize, customs: &[Vec<String>]) -> Ty
 
 pub fn ty_cfg(rng: &mut Rng, cfg: &GenCfg, max_depth: usize) -> Ty {
     if cfg.deep_types && rng.chance(1, 60) {
-        let d = rng.range(30, 64);
+        let d = if rng.chance(1, 3) { *rng.pick(&[15usize, 16, 17, 31, 32, 33, 63, 64, 65, 127, 128, 129, 254, 255, 256, 257, 300]) } else { rng.range(30, 64) };
         return deep_chain_ty(rng, d, &cfg.customs);
     }
     ty(rng, max_depth, &cfg.customs)
@@ -362,14 +362,38 @@ pub fn item(rng: &mut Rng, cfg: &GenCfg) -> Item {
             ItemKind::Enum => enum_elem(rng, cfg),
         });
     }
-    if cfg.repeat_method_names && kind == ItemKind::Interface && rng.chance(1, 3) {
+    if cfg.repeat_method_names && rng.chance(1, 3) {
+        // names collide on purpose: between methods, between constants and methods / fields, between enum elements,
+        // between the arguments of one method, with the item's own name
+        let item_name_pool: Vec<String> = Vec::new();
+        let _ = item_name_pool;
         let mut seen: Vec<String> = Vec::new();
         for m in members.iter_mut() {
-            if let Member::Method { name, .. } = m {
-                if !seen.is_empty() && rng.chance(1, 3) {
-                    *name = rng.pick(&seen).clone();
+            let same_kind_only = rng.chance(1, 2);
+            match m {
+                Member::Method { name, args, .. } => {
+                    if !seen.is_empty() && rng.chance(1, 3) {
+                        *name = rng.pick(&seen).clone();
+                    }
+                    seen.push(name.clone());
+                    let mut arg_seen: Vec<String> = Vec::new();
+                    for a in args.iter_mut() {
+                        if let Some(n) = &mut a.name {
+                            if !arg_seen.is_empty() && rng.chance(1, 3) {
+                                *n = rng.pick(&arg_seen).clone();
+                            } else if rng.chance(1, 10) {
+                                *n = name.clone();
+                            }
+                            arg_seen.push(n.clone());
+                        }
+                    }
                 }
-                seen.push(name.clone());
+                Member::Const { name, .. } | Member::Field { name, .. } | Member::EnumElem { name, .. } => {
+                    if !seen.is_empty() && !same_kind_only && rng.chance(1, 3) {
+                        *name = rng.pick(&seen).clone();
+                    }
+                    seen.push(name.clone());
+                }
             }
         }
     }
@@ -908,7 +932,7 @@ pub const UNICODE_WS: &[&str] = &[
 
 pub const COMMENT_WORDS: &[&str] = &[
     "a", "note", "x", " ", "  ", "é", "ü", "漢字", "😀", "e\u{301}", "*", "**", "/", "//", "/ *", "\"", "'", "interface", "in", "int", ";", "{", "}", "@", "@param",
-    "\u{a0}", "\u{2028}", "TODO", "=", "12", "\\", "\t",
+    "\u{a0}", "\u{2028}", "TODO", "=", "12", "\\", "\t", "\n", "\n * ", "\n *\n *\n", "\r\n", "\n\n", " *", "/*", "\u{3000}", "\u{feff}",
 ];
 
 #[derive(Clone, Copy, Debug, PartialEq, Eq)]
@@ -960,8 +984,8 @@ pub fn trivia_piece(rng: &mut Rng, style: LayoutStyle) -> String {
             9 | 10 => format!("//{}{}", comment_text(rng, false), rng.pick(&["\n", "\r\n", "\r", "\n\n"])),
             11 | 12 => {
                 let t = comment_text(rng, true);
-                // "/*" + t + "*/": if t starts with '*' this is a doc comment; avoid in NoDoc mode, and avoid "/*/"
-                let t = if t.starts_with('/') { format!(" {t}") } else { t };
+                // "/*" + t + "*/": if t starts with '*' this is a doc comment (avoided in NoDoc mode); a text starting
+                // with '/' gives "/*/ ... */", which is one ordinary comment for the lexer
                 if style == LayoutStyle::WildNoDoc && t.starts_with('*') {
                     format!("/* {t}*/")
                 } else {
